@@ -199,3 +199,55 @@ fn witness_c10_rejected_position_command_changes_nothing() {
     }
     assert_eq!(bad, 0);
 }
+
+/// C13 through the engine, "repeated calls": a rejected position command leaves NOTHING behind — a later accepted command
+/// reaches the position the rules define.  Compared with a fresh engine given only the accepted command: `go depth 1` and
+/// `go depth 2` must answer the same move with the same score (the search is deterministic).
+#[test]
+fn witness_c10_rejected_position_command_leaves_nothing_behind() {
+    let startpos = "rnbqkbnr/pppppppp/8/8/8/8/PPPPPPPP/RNBQKBNR w KQkq - 0 1";
+    let answers = |cmds: &[(&str, &[&str])]| -> Vec<(Option<String>, Option<Score>)> {
+        let (tx, rx) = channel();
+        let mut engine = Engine::new(Arc::new(CommandUciTx::new(tx)), false);
+        engine.accept(UciCommand::UciNewGame);
+        for (fen, moves) in cmds {
+            let list: Vec<UciMove> = moves.iter().filter_map(|s| UciMove::parse(s).ok()).collect();
+            engine.accept(UciCommand::PositionFrom { fen: Fen::from_str(fen).unwrap(), moves: list });
+        }
+        let mut out = Vec::new();
+        for depth in [1u64, 2] {
+            engine.accept(UciCommand::Go { go: Go { depth: Some(depth), ..Go::default() } });
+            let mut last = None;
+            let mut best = None;
+            while let Ok(c) = rx.recv() {
+                match c {
+                    UciTxCommand::Info { info } => { if info.score.is_some() { last = info.score; } }
+                    UciTxCommand::BestMove { best_move, .. } => { best = best_move.map(|m| m.to_string()); break; }
+                    _ => {}
+                }
+            }
+            out.push((best, last));
+        }
+        engine.accept(UciCommand::Quit);
+        out
+    };
+    let mut bad = 0;
+    for (rejected, accepted) in [
+        // the rejected list fails on a move that matches no move of the position reached; the accepted one starts with a move
+        // whose text IS a move of that position (other piece, other undo data)
+        (("4k3/8/8/8/8/8/4R3/4K3 w - - 0 1", &["e1e3"][..]), (startpos, &["e2e4"][..])),
+        ((startpos, &["g1f3", "g8f6", "f3g1", "f6g8", "e2e5"][..]), (startpos, &["g1f3"][..])),
+        ((startpos, &["e2e4", "e7e5", "e1e3"][..]), (startpos, &["e2e4", "e7e5", "g1f3"][..])),
+        (("r3k2r/8/8/8/8/8/8/R3K2R w KQkq - 0 1", &["e1g1", "e8g8", "g1e1"][..]), ("r3k2r/8/8/8/8/8/8/R3K2R w - - 10 20", &["e1f1", "e8d8"][..])),
+        // ... and a list rejected for leaving the king in check
+        ((startpos, &["e2e4", "f7f6", "d1h5", "a7a6"][..]), (startpos, &["e2e4", "f7f6", "d1h5", "g7g6"][..])),
+    ] {
+        let fresh = answers(&[accepted]);
+        let after = answers(&[rejected, accepted]);
+        if fresh != after {
+            println!("FAILING-INPUT: position fen {:?} moves {:?} (rejected), then position fen {:?} moves {:?}: go depth 1 / depth 2 answer {:?}; a fresh engine given only the second command answers {:?}", rejected.0, rejected.1, accepted.0, accepted.1, after, fresh);
+            bad += 1;
+        }
+    }
+    assert_eq!(bad, 0);
+}
